@@ -74,6 +74,34 @@ def check_ro(project: Project, rep):
                                                  f"({len(s.repo_calls)} repo calls followed)")
 
 
+def check_data_untouched(project: Project, rep):
+    """TF-DATA: fit / transform / fit_transform do not write through the data they are given. If they did, fit(X) followed
+    by transform(X) would transform what fit left behind (not what fit_transform sees), and a refit on the same X would learn
+    from X as modified by the first fit."""
+    oa = own_analysis(project)
+    for cq in (IMG, LSC):
+        c = project.cls(cq)
+        for mname in ("fit", "transform", "fit_transform"):
+            m = c.lookup(mname, project)
+            if m is None or not m.qualname.startswith("persim."):
+                continue
+            s = oa.summary(m.qualname)
+            data_params = [p_ for p_ in m.params[1:2]]
+            evs = [ev for ev in s.events if ev.kind == "write" and ev.origin.is_arg and ev.origin.param in data_params]
+            if evs:
+                ev = evs[0]
+                owner = project.functions.get(ev.func) or m
+                rep.refuted("TF-DATA", owner, ev.node,
+                            f"{cq.rsplit('.', 1)[1]}.{mname} writes into the data it was given ({ev.how} on {ev.origin}"
+                            + (f" via {' -> '.join(ev.chain)}" if ev.chain else "") + "): a later transform / refit on the same "
+                            "object sees data altered by this call, so fit + transform and repeated fits stop agreeing with "
+                            "fit_transform / a single fit",
+                            construct=f"{m.qualname}: write through the data argument")
+            else:
+                rep.discharged("TF-DATA", m, m.node, f"{cq.rsplit('.', 1)[1]}.{mname}: no write reaches the data argument "
+                                                     f"({len(s.repo_calls)} repo calls followed)")
+
+
 def check_ft(project: Project, rep):
     c = project.cls(IMG)
     ft = c.methods.get("fit_transform")
@@ -213,6 +241,7 @@ def run(project: Project, rep, tier: str):
         "parameters are symbols and may appear). TF-ORDER: the collection is mapped in order. Declined: numerical equality of "
         "outputs across calls.")
     check_ro(project, rep)
+    check_data_untouched(project, rep)
     check_ft(project, rep)
     check_hist(project, rep)
     check_order(project, rep)
